@@ -41,9 +41,45 @@ pub struct SigNode {
     pub node: Node,
     pub sig: Signature,
 }
-#[derive(Debug)]
-pub struct UiuaError {
+pub struct FunctionId {
+    pub id: int,
+}
+pub struct Span {
+    pub id: int,
+}
+impl Clone for Span {
+    #[verifier::external_body]
+    fn clone(&self) -> (r: Self)
+        ensures r == *self,
+    {
+        unimplemented!()
+    }
+}
+pub struct TraceFrame {
+    pub id: Option<FunctionId>,
+    pub span: Span,
+}
+pub struct ErrMeta {
+    pub trace: Vec<TraceFrame>,
     pub is_case: bool,
+}
+pub struct UiuaError {
+    pub meta: ErrMeta,
+}
+impl std::fmt::Debug for UiuaError {
+    #[verifier::external_body]
+    fn fmt(&self, f: &mut std::fmt::Formatter<'_>) -> std::fmt::Result {
+        unimplemented!()
+    }
+}
+impl UiuaError {
+    #[verifier::external_body]
+    pub fn track_caller(&mut self, new_span: Span) {
+        unimplemented!()
+    }
+}
+pub struct Assembly2 {
+    pub spans: Vec<Span>,
 }
 pub type UiuaResult<T = ()> = Result<T, UiuaError>;
 #[derive(Debug)]
@@ -52,6 +88,7 @@ pub struct SigCheckError {
 }
 pub struct StackFrame {
     pub sig: Signature,
+    pub id: Option<FunctionId>,
     pub call_span: usize,
     pub track_caller: bool,
 }
@@ -69,6 +106,7 @@ pub struct Runtime {
 }
 pub struct Uiua {
     pub rt: Runtime,
+    pub asm: Assembly2,
 }
 pub type Ops = Vec<SigNode>;
 
@@ -197,6 +235,8 @@ impl StackArg for &str {}
 /// every scoped stack of the runtime other than stack / under_stack
 pub open spec fn scoped_same(a: Runtime, b: Runtime) -> bool {
     &&& a.call_stack@.len() == b.call_stack@.len()
+    // frames beneath are the same frames (only their track_caller flag may be set by a callee)
+    &&& forall|i: int| 0 <= i < a.call_stack@.len() ==> a.call_stack@[i].call_span == (#[trigger] b.call_stack@[i]).call_span && a.call_stack@[i].sig == b.call_stack@[i].sig
     &&& a.fill_stack@.len() == b.fill_stack@.len()
     &&& a.fill_boundary_stack@.len() == b.fill_boundary_stack@.len()
     &&& a.unfill_stack@.len() == b.unfill_stack@.len()
@@ -251,6 +291,9 @@ impl Uiua {
     pub fn exec<T: UiuaExec>(&mut self, node: T) -> (r: UiuaResult)
         ensures
             scoped_same(old(self).rt, final(self).rt),
+            // Rust guarantees Vec lengths fit isize; the span table only grows
+            final(self).rt.stack@.len() <= isize::MAX as nat,
+            final(self).asm.spans@.len() >= old(self).asm.spans@.len(),
             r.is_ok() ==> ({
                 let sg = node_sig(node.the_node());
                 let s = old(self).rt.stack@;
@@ -278,6 +321,10 @@ impl Uiua {
     // ---------------- helper contracts (ASSUMED here; each is an E3 obligation on the real body) ----------------
     #[verifier::external_body]
     pub fn error(&self, m: Msg) -> UiuaError {
+        unimplemented!()
+    }
+    #[verifier::external_body]
+    pub fn error_with_span(&self, span: Span, m: Msg) -> UiuaError {
         unimplemented!()
     }
     #[verifier::external_body]
